@@ -91,7 +91,7 @@ pub fn self_test() -> Result<(), String> {
             wrap::Wrapped::Ok { out, used, .. } if out == want && used == z.len() => {}
             _ => return Err(format!("R3 zlib decode fails on sample {i}")),
         }
-        let f = wrap::GzFields { text: true, mtime: 0x1234_5678, xfl: 2, os: 3, extra: Some(vec![1, 2, 3]), name: Some(b"name".to_vec()), comment: Some(b"c".to_vec()), hcrc: true };
+        let f = wrap::GzFields { text: true, mtime: 0x1234_5678, xfl: 2, os: 3, extra: Some(vec![1, 2, 3]), name: Some(b"name".to_vec()), comment: Some(b"c".to_vec()), hcrc: true, hcrc_val: 0 };
         let mut g = f.write();
         g.extend_from_slice(&bytes);
         g.extend_from_slice(&wrap::gzip_trailer(&want));
